@@ -100,7 +100,10 @@ def judge(ctx, recs, label=None):
                 label=label or "Trace_ASN1Marshal[%d cases]" % len(recs))
     if r.distinct != max(1, len(recs)):
         raise Machinery("Trace_ASN1Marshal visited %d states for %d records" % (r.distinct, len(recs)))
-    return sorted((int(m.group(1)), m.group(2)) for m in re.finditer(r'<<"REJECT", (\d+), "([^"]*)">>', r.out))
+    try:
+        return derlib.rejects(r.out, 1)
+    except ValueError as e:
+        raise Machinery(str(e))
 
 
 def reproduce_obs(ctx, binary, path):
@@ -130,6 +133,8 @@ def selftest(ctx, recs):
 
 
 def replay(ctx, path):
+    import os
+    path = os.path.abspath(path)
     binary = ctx.gobuild("c18")
     body = json.load(open(path))
     if body.get("case", {}).get("obs"):
